@@ -12,7 +12,7 @@ import numpy as np
 import astropy.units as u
 import dask.array as da
 
-from pbmc import bind_repo, report, factory
+from pbmc import bind_repo, report, factory, history
 from pbmc.exact import time_days as T
 
 pb = bind_repo()
@@ -261,12 +261,33 @@ def check_case(case):
                                   f"again does not show the current data", case, {"how": how, "op": op, "name": nm})
                     break
             res.hits["component read, in-place write, component read"] += 1
+    if case["backend"] == "numpy":
+        history.reuse_buffer(res, case, z, [("to_circular", lambda q_: q_.to_circular()), ("to_linear", lambda q_: q_.to_linear()),
+                                            ("to_stokes", lambda q_: q_.to_stokes()), ("to_intensity", lambda q_: q_.to_intensity())],
+                             "history")
     # conversions after an in-place change and after assigning pol_type
     zz = type(z).like(z, z.data * 1)
     _ = zz.to_stokes(), zz.to_circular()
     zz *= 2
     if not np.allclose(values(zz.to_stokes()), 4 * values(z.to_stokes()), rtol=1e-5):
         res.violation("history|stale conversion", "to_stokes after 'z *= 2' does not reflect the new data", case, None)
+    # an assignment that must be refused leaves the object as it was
+    before = (zz.pol_type, values(zz.to_circular()), values(zz.to_linear()))
+    for bad in ("elliptical", "LINEAR", None, 3):
+        try:
+            zz.pol_type = bad
+            res.violation("history|invalid pol_type accepted", f"pol_type = {bad!r} accepted", case, {"bad": repr(bad)})
+        except Exception:
+            pass
+    try:
+        after = (zz.pol_type, values(zz.to_circular()), values(zz.to_linear()))
+        if after[0] != before[0] or not np.array_equal(after[1], before[1]) or not np.array_equal(after[2], before[2]):
+            res.violation("history|refused pol_type assignment changed the signal", f"pol_type {before[0]!r} -> {after[0]!r} or conversions "
+                          f"changed after refused assignments", case, None)
+        else:
+            res.hits["refused pol_type assignment"] += 1
+    except Exception as e:
+        res.violation("history|conversion raised after a refused pol_type assignment", f"{type(e).__name__}: {e}", case, None)
     other = "circular" if case["basis"] == "linear" else "linear"
     zz.pol_type = "".join(list(other))
     same = zz.to_circular() if other == "circular" else zz.to_linear()
@@ -289,7 +310,7 @@ def check_case(case):
 def main(argv=None):
     return report.run_check(
         PID, gen_cases=gen_cases, check_case=check_case, describe=describe,
-        required_hits=["identity when already in basis", "Stokes from the other basis", "component by name", "component read, in-place write, component read", "very small / very large magnitudes",
+        required_hits=["buffer overwritten between calls", "refused pol_type assignment", "identity when already in basis", "Stokes from the other basis", "component by name", "component read, in-place write, component read", "very small / very large magnitudes",
                        "trailing dimension", "non-center alignment", "dask backend"],
         assumptions=["inputs are dyadic rationals so the formulas are exact up to the final 1/sqrt2; budget 8 eps(dtype) max|.| "
                      "(16 eps max^2 for quadratic quantities)"],
